@@ -47,7 +47,12 @@ def eigenvalue_decomposition(C, is_inverse=False, eps=1e-10):
     eigenvalues = eigenvalues[index]
     eigenvectors = eigenvectors[:, index]
 
-    # set tolerance limit
+    # set tolerance limit. It can not be tighter than what the decomposition
+    # delivers in the precision of the data: an exactly zero eigenvalue (there
+    # is always one in the Gram matrix of centred data) comes out as rounding
+    # noise of the order of n * machine epsilon * largest eigenvalue, which for
+    # single precision data is far above the default eps
+    eps = max(eps, C.shape[0] * np.finfo(eigenvalues.dtype).eps)
     limit = np.max(np.abs(eigenvalues)) * eps
 
     # select positive eigenvalues
